@@ -1437,7 +1437,7 @@ class Emitter:
             a = v[2][0] if v[2] else None
             if a is not None and a[0] == "path" and len(a[1]) == 1 and a[1][0] in getattr(self, "err_vars", set()):
                 return f"(.err {self.v(a[1][0])})"       # the error caught by an enclosing `Err(e)` arm
-            return "(.err .format)"
+            return f"(.err {self.cfg.get('err_kind', '.format')})"
         if v is not None and v[0] == "call" and v[1][0] == "path" and v[1][1] == ["Ok"] and not self.has_effect(v[2]) \
                 and getattr(self, "final_k", None) is not None:
             return "(" + self.final_k(self.ex(v)) + ")"
